@@ -162,7 +162,7 @@ def gen_cases(tier: str, seed: int) -> List[Dict]:
                 cases.append({"id": "%s-%03d-%s" % (PROP, n, fn), "op": fn, "fn": fn, "operands": operands, "options": opt, "limits": lim})
     # native dtype layer ("arbitrary dtypes"): literal coefficients at the edges of each dtype; alignment must hand every value back
     # exactly, whatever it has to broadcast / widen.  (Symbolically these are ordinary exact numbers.)
-    dts = ["uint64", "int64", "uint32", "int32", "uint16", "int16", "uint8", "int8", "bool", "float32", "float16", "float64", ">i8", ">f8", ">u4", ">c16", ">i2"]
+    dts = ["uint64", "int64", "uint32", "int32", "uint16", "int16", "uint8", "int8", "bool", "float32", "float16", "float64", ">i8", ">f8", ">u4", ">i2", ">f4"]
     for dt in dts if not quick else rng.sample(dts[2:12], 3) + ["uint64", "int64"] + rng.sample(dts[12:], 2):
         for fn in FUNCS:
             # shapes under which *every* operand has to be broadcast by the shape-aligning functions
